@@ -142,7 +142,10 @@ def stamp_rule(run, stats, bad):
             E = max(prev_dep, oldest)
             # (also certain: arrivals whose delivering event was scheduled before that step -- within one instant
             # events take effect in trigger order, and the scheduler's own resumption is triggered later)
-            certain = {v for v in worlds[0].stamp if aseq[v] <= E or sched_of.get(v, aseq[v]) < E}
+            # -- but only when the decision follows a departure: after an idle period the pending get of the scheduler
+            # takes the first packet in the very step of its arrival, so nothing that arrives later was in the queue
+            busy = prev_dep >= oldest
+            certain = {v for v in worlds[0].stamp if aseq[v] <= E or (busy and sched_of.get(v, aseq[v]) < E)}
             if len(certain) < len(worlds[0].stamp) - (0 if u in certain else 1):
                 stats["arrived_between_pick_and_start"] += 1
             for w in worlds:
